@@ -1288,4 +1288,383 @@ theorem mkComposeK_wf (hn2 : NamesOK2 names) {T : List V} (hT : TypesOK names T)
 
 end
 
+section
+variable {names : List String} {D : Type}
+
+theorem joinedName_ok (vs : List (Variable D)) (hv : ∀ v ∈ vs, ∃ s, getSlot v.varCtx (kName names) = some (.str s)) :
+    ∃ s, joinedName names vs = .ok (.str s) := by
+  have h1 : ∃ ss : List String, joinedName.namesOf names vs = .ok (ss.map V.str) := by
+    induction vs with
+    | nil => exact ⟨[], rfl⟩
+    | cons v r ih =>
+      obtain ⟨s, hs⟩ := hv v (by simp)
+      obtain ⟨ss, hss⟩ := ih (fun w hw => hv w (by simp [hw]))
+      exact ⟨s :: ss, by simp [joinedName.namesOf, nameOf, hs, hss]⟩
+  have h2 : ∀ ss : List String, joinedName.strs (ss.map V.str) = some ss := by
+    intro ss
+    induction ss with
+    | nil => rfl
+    | cons s r ih => simp [joinedName.strs, ih]
+  obtain ⟨ss, hss⟩ := h1
+  exact ⟨joinUnderscore ss, by simp [joinedName, hss, h2]⟩
+
+/-- **`Combine` of named variables is well-formed** (closure of the class of variables the chain theorems speak
+about under `Combine`, with keyword arguments, a `name` and a `type` keyword): its history is its own type -/
+theorem mkCombine_wf (hn2 : NamesOK2 names) {T : List V} (hT : TypesOK names T) (tup : List D → D)
+    (vs : List (Variable D)) (hne : vs ≠ [])
+    (hv : ∀ v ∈ vs, ∃ s, getSlot v.varCtx (kName names) = some (.str s))
+    (kw : Slots) (hlen : kw.length = names.length)
+    (hkw : kwOKb names T (setSlot kw (kType names) none) = true) (hnk : nameKwOKb names kw = true)
+    (hty : typeOKb names ((getSlot kw (kType names)).getD (.str "")) = true)
+    (hcov : ∀ j, inT names (typeOf ((getSlot kw (kType names)).getD (.str ""))) j = true → inT names T j = true) :
+    ∃ c, mkCombine names tup (vs.map some) kw = .ok c ∧ (∀ x, c.getter x = tup (vs.map (fun v => v.getter x))) ∧
+      WFCtx names T c.varCtx ∧ hist names c.varCtx = typeOf ((getSlot kw (kType names)).getD (.str "")) := by
+  have hn := hn2.base
+  have hdt : kDim names ≠ kType names := by
+    intro he; have := key_inj hn2.hDim he; simp at this
+  have hdn : kDim names ≠ kName names := by
+    intro he; have := key_inj hn2.hDim he; simp at this
+  have hdc : kDim names ≠ kCompose names := by
+    intro he; have := key_inj hn2.hDim he; simp at this
+  have hct : kCombine names ≠ kType names := by
+    intro he; have := key_inj hn2.hCombine he; simp at this
+  have hcn : kCombine names ≠ kName names := by
+    intro he; have := key_inj hn2.hCombine he; simp at this
+  have hcc : kCombine names ≠ kCompose names := by
+    intro he; have := key_inj hn2.hCombine he; simp at this
+  have hcd : kCombine names ≠ kDim names := by
+    intro he; have := key_inj hn2.hCombine he; simp at this
+  have hgt : kGetter names ≠ kType names := by
+    intro he; have := key_inj hn2.hGetter he; simp at this
+  have hgn : kGetter names ≠ kName names := by
+    intro he; have := key_inj hn2.hGetter he; simp at this
+  have hgd : kGetter names ≠ kDim names := by
+    intro he; have := key_inj hn2.hGetter he; simp at this
+  have hgc : kGetter names ≠ kCombine names := by
+    intro he; have := key_inj hn2.hGetter he; simp at this
+  obtain ⟨_, _, hkc0, hkg0, hkd0, hkn0⟩ := kwOKb_sound hkw hT
+  -- facts about `kw` itself (the check was made on `kw` without `type`)
+  have hk : ∀ j, j ≠ kType names → getSlot (setSlot kw (kType names) none) j = getSlot kw j := by
+    intro j hj; rw [getSlot_setSlot]; simp [hj]
+  have hkc : getSlot kw (kCompose names) = none := by rw [← hk _ (Ne.symm hn.type_ne_compose)]; exact hkc0
+  have hkg : getSlot kw (kGetter names) = none := by rw [← hk _ hgt]; exact hkg0
+  have hkd : getSlot kw (kDim names) = none := by rw [← hk _ hdt]; exact hkd0
+  have hkn : ∀ j, inT names T j = true → getSlot kw j = none := by
+    intro j hj
+    have hjt : j ≠ kType names := by intro he; rw [he, hT.type] at hj; cases hj
+    rw [← hk j hjt]; exact hkn0 j hj
+  cases vs with
+  | nil => exact absurd rfl hne
+  | cons v1 rest =>
+    -- the name
+    have hname : ∃ s0, getSlot kw (kName names) = some (V.str s0) ∨
+        (getSlot kw (kName names) = none ∧ joinedName names (v1 :: rest) = Except.ok (V.str s0)) := by
+      cases hkname : getSlot kw (kName names) with
+      | none =>
+        obtain ⟨s, hs⟩ := joinedName_ok (names := names) (v1 :: rest) hv
+        exact ⟨s, Or.inr ⟨rfl, hs⟩⟩
+      | some x =>
+        simp only [nameKwOKb, hkname] at hnk
+        cases x with
+        | str s => exact ⟨s, Or.inl rfl⟩
+        | int i => cases hnk
+        | seq b l => cases hnk
+        | dict l => cases hnk
+    obtain ⟨s0, hs0⟩ := hname
+    -- the keyword dictionary handed to `Variable.__init__`
+    let vc : Slots := setSlot (setSlot (dictUpdate (emptyD names.length) (setSlot kw (kName names) none))
+        (kDim names) (some (.int ((v1 :: rest).length : Nat)))) (kCombine names)
+        (some (.seq true ((v1 :: rest).map (fun v => V.dict v.varCtx))))
+    have hvc : ∀ j, getSlot vc j =
+        if j = kCombine names then some (.seq true ((v1 :: rest).map (fun v => V.dict v.varCtx)))
+        else if j = kDim names then some (.int ((v1 :: rest).length : Nat))
+        else if j = kName names then none else getSlot kw j := by
+      intro j
+      simp only [vc]
+      rw [getSlot_setSlot, getSlot_setSlot, getSlot_dictUpdate, getSlot_setSlot]
+      by_cases h1 : j = kCombine names
+      · simp [h1]
+      · by_cases h2 : j = kDim names
+        · simp [h1, h2]
+        · by_cases h3 : j = kName names
+          · simp [h1, h2, h3]
+          · simp only [h1, h2, h3, if_false]
+            cases getSlot kw j <;> simp
+    have hkl : (setSlot kw (kName names) none).length = names.length := by
+      rw [length_setSlot _ _ _ (hlen ▸ hn.kName_lt)]; exact hlen
+    have hvclen : vc.length = names.length := by
+      simp only [vc]
+      have h0 : (dictUpdate (emptyD names.length) (setSlot kw (kName names) none)).length = names.length := by
+        rw [length_dictUpdate _ _ (by simp [hkl])]; simp
+      rw [length_setSlot, length_setSlot, h0]
+      · rw [h0]; exact key_lt hn2.hDim
+      · rw [length_setSlot _ _ _ (by rw [h0]; exact key_lt hn2.hDim), h0]; exact key_lt hn2.hCombine
+    have hvct : getSlot vc (kType names) = getSlot kw (kType names) := by
+      rw [hvc]; simp [Ne.symm hct, Ne.symm hdt, Ne.symm hn.name_ne_type]
+    have hkwC : KwOK names T (setSlot vc (kType names) none) := by
+      refine ⟨?_, ?_, ?_, ?_, ?_⟩
+      · rw [length_setSlot _ _ _ (hvclen ▸ hn.kType_lt)]; exact hvclen
+      · rw [getSlot_setSlot, hvc]; simp [hn.name_ne_type, Ne.symm hcn, Ne.symm hdn]
+      · rw [getSlot_setSlot]; simp
+      · rw [getSlot_setSlot, hvc]; simp [Ne.symm hn.type_ne_compose, Ne.symm hcc, Ne.symm hdc, Ne.symm hn.name_ne_compose, hkc]
+      · intro j hj
+        have h1 : j ≠ kCombine names := by intro he; rw [he, hT.combine] at hj; cases hj
+        have h2 : j ≠ kDim names := by intro he; rw [he, hT.dim] at hj; cases hj
+        rw [getSlot_setSlot, hvc]
+        by_cases h3 : j = kType names
+        · simp [h3]
+        · by_cases h4 : j = kName names
+          · simp [h4, Ne.symm hcn, Ne.symm hdn, hn.name_ne_type]
+          · simp [h1, h2, h3, h4, hkn j hj]
+    obtain ⟨v, hmk, hget, hwf, hh⟩ := mkVariable_wf hn hT s0
+      (fun x => tup ((v1 :: rest).map (fun v => v.getter x)))
+      ((getSlot kw (kType names)).getD (.str "")) (setSlot vc (kType names) none) hty hkwC hcov
+    refine ⟨v, ?_, fun x => by rw [hget], hwf, hh⟩
+    unfold mkCombine
+    have hall : (List.map some (v1 :: rest)).all Option.isSome = true := by simp
+    have hfm : List.filterMap id (List.map some (v1 :: rest)) = v1 :: rest := by simp [List.filterMap_map]
+    have hdim : hasKey (setSlot kw (kName names) none) (kDim names) = false := by
+      simp [hasKey, getSlot_setSlot, hdn, hkd]
+    have hgetter : hasKey vc (kGetter names) = false := by
+      simp [hasKey, hvc, hgc, hgd, hgn, hkg]
+    simp only [List.isEmpty_cons, List.map_cons, Bool.false_eq_true, if_false]
+    have hall' : (some v1 :: List.map some rest).all Option.isSome = true := by simp
+    have hfm' : List.filterMap id (some v1 :: List.map some rest) = v1 :: rest := by simp
+    simp only [hall', Bool.not_true, Bool.false_eq_true, if_false, hfm']
+    have hfin : (if hasKey (setSlot kw (kName names) none) (kDim names) = true then Except.error Err.assertionError
+        else if hasKey vc (kGetter names) = true then Except.error Err.typeError
+        else mkVariable names (V.str s0) (GetterArg.fn fun x => tup (List.map (fun v => v.getter x) (v1 :: rest)))
+          ((getSlot vc (kType names)).getD (V.str "")) (setSlot vc (kType names) none)) = Except.ok v := by
+      simp only [hdim, hgetter, Bool.false_eq_true, if_false]
+      rw [hvct]
+      exact hmk
+    rcases hs0 with h | ⟨h, hj⟩
+    · simp only [h]
+      exact hfin
+    · simp only [h, hj]
+      exact hfin
+
+end
+
+section
+variable {names : List String} {D : Type}
+
+/-- what the evaluation of a list of well-formed expressions yields -/
+structure ArgsRes (names : List String) (T : List V) (tup : List D → D) (es : List (Expr D))
+    (vs : List (Variable D)) : Prop where
+  len : vs.length = es.length
+  wf : ∀ v ∈ vs, WFCtx names T v.varCtx
+  data : ∀ x, chainData vs x = composeData tup es x
+  tuple : ∀ x, vs.map (fun v => v.getter x) = combineData tup es x
+  types : (vs.map Variable.varCtx).flatMap (hist names) = argsTypes names es
+
+theorem kwOKb_KwOK {T : List V} {kw : Slots} (hT : TypesOK names T) (h : kwOKb names T kw = true)
+    (hname : getSlot kw (kName names) = none) : KwOK names T kw := by
+  obtain ⟨h1, h2, h3, _, _, h6⟩ := kwOKb_sound h hT
+  exact ⟨h1, hname, h2, h3, h6⟩
+
+mutual
+/-- the types an expression contributes to `compose` are among all its types -/
+theorem exprTypes_sub (j : Nat) : ∀ (e : Expr D), inT names (exprTypes names e) j = true →
+    inT names (exprAllTypes names e) j = true
+  | .other, h => by simpa [exprTypes, exprAllTypes] using h
+  | .var _ _ _ _, h => by simpa [exprTypes, exprAllTypes] using h
+  | .compose args _, h => by
+    simp only [exprTypes, exprAllTypes] at h ⊢
+    exact argsTypes_sub j args h
+  | .combine args kw, h => by
+    simp only [exprTypes, exprAllTypes, inT_append] at h ⊢
+    simp [h]
+theorem argsTypes_sub (j : Nat) : ∀ (es : List (Expr D)), inT names (argsTypes names es) j = true →
+    inT names (argsAllTypes names es) j = true
+  | [], h => by simpa [argsTypes, argsAllTypes] using h
+  | e :: r, h => by
+    simp only [argsTypes, argsAllTypes, inT_append, Bool.or_eq_true] at h ⊢
+    rcases h with h | h
+    · exact Or.inl (exprTypes_sub j e h)
+    · exact Or.inr (argsTypes_sub j r h)
+end
+
+mutual
+/-- **every well-formed expression tree — any nesting depth of `Compose` and `Combine` — constructs a variable**
+(no exception) **whose getter is the reference semantics `exprData`** (`vₙ.getter(…v₁.getter(x)…)` for a
+`Compose`, the tuple of the getters' results for a `Combine`) and whose context satisfies the hypotheses of the
+chain theorems, with the history `exprTypes` -/
+theorem evalExpr_wf (hn2 : NamesOK2 names) {T : List V} (hT : TypesOK names T) (nk : Bool) (tup : List D → D) :
+    ∀ (e : Expr D), exprOKb names T e = true →
+      (∀ j, inT names (exprAllTypes names e) j = true → inT names T j = true) →
+      ∃ v, evalExpr names true nk tup e = .ok (some v) ∧ (∀ x, v.getter x = exprData tup e x) ∧
+        WFCtx names T v.varCtx ∧ hist names v.varCtx = exprTypes names e
+  | .other, h, _ => by simp [exprOKb] at h
+  | .var name g ty kw, h, hcov => by
+    simp only [exprOKb, Bool.and_eq_true, Option.isNone_iff_eq_none] at h
+    obtain ⟨⟨⟨⟨hg, hname⟩, hty⟩, hkw⟩, hkn⟩ := h
+    match g, hg with
+    | .fn f, _ =>
+      match name, hname with
+      | .str s0, _ =>
+        obtain ⟨v, hv, hget, hwf, hh⟩ := mkVariable_wf hn2.base hT s0 f ty kw hty (kwOKb_KwOK hT hkw hkn)
+          (by simpa [exprAllTypes] using hcov)
+        exact ⟨v, by simp [evalExpr, hv], fun x => by rw [hget]; simp [exprData], hwf, by simpa [exprTypes] using hh⟩
+  | .compose args kw, h, hcov => by
+    simp only [exprOKb, Bool.and_eq_true, Bool.not_eq_true', List.isEmpty_eq_false_iff] at h
+    obtain ⟨⟨⟨hne, hargs⟩, hkw⟩, hnk⟩ := h
+    obtain ⟨vs, hev, hres⟩ := evalArgs_wf hn2 hT nk tup args hargs (by simpa [exprAllTypes] using hcov)
+    have hvne : vs ≠ [] := by
+      intro he; rw [he] at hres; have := hres.len; simp at this; exact hne (List.length_eq_zero_iff.1 this.symm)
+    obtain ⟨c, hc, hget, hwf, hh⟩ := mkComposeK_wf hn2 hT nk vs hvne hres.wf kw hkw hnk
+    refine ⟨c, by simp [evalExpr, hev, hc], ?_, hwf, ?_⟩
+    · intro x; rw [hget, hres.data]; simp [exprData]
+    · rw [hh, hres.types]; simp [exprTypes]
+  | .combine args kw, h, hcov => by
+    simp only [exprOKb, Bool.and_eq_true, Bool.not_eq_true', List.isEmpty_eq_false_iff, beq_iff_eq] at h
+    obtain ⟨⟨⟨⟨⟨hne, hargs⟩, hlen⟩, hkw⟩, hnk⟩, hty⟩ := h
+    have hcov1 : ∀ j, inT names (argsAllTypes names args) j = true → inT names T j = true := by
+      intro j hj; apply hcov; simp [exprAllTypes, inT_append, hj]
+    have hcov2 : ∀ j, inT names (typeOf ((getSlot kw (kType names)).getD (.str ""))) j = true → inT names T j = true := by
+      intro j hj; apply hcov; simp [exprAllTypes, inT_append, hj]
+    obtain ⟨vs, hev, hres⟩ := evalArgs_wf hn2 hT nk tup args hargs hcov1
+    have hvne : vs ≠ [] := by
+      intro he; rw [he] at hres; have := hres.len; simp at this; exact hne (List.length_eq_zero_iff.1 this.symm)
+    obtain ⟨c, hc, hget, hwf, hh⟩ := mkCombine_wf hn2 hT tup vs hvne (fun v hv => (hres.wf v hv).name) kw hlen hkw hnk hty hcov2
+    refine ⟨c, by simp [evalExpr, hev, hc], ?_, hwf, ?_⟩
+    · intro x; rw [hget, hres.tuple]; simp [exprData]
+    · rw [hh]; simp [exprTypes]
+theorem evalArgs_wf (hn2 : NamesOK2 names) {T : List V} (hT : TypesOK names T) (nk : Bool) (tup : List D → D) :
+    ∀ (es : List (Expr D)), argsOKb names T es = true →
+      (∀ j, inT names (argsAllTypes names es) j = true → inT names T j = true) →
+      ∃ vs, evalArgs names true nk tup es = .ok (vs.map some) ∧ ArgsRes names T tup es vs
+  | [], _, _ => ⟨[], by simp [evalArgs], ⟨rfl, by simp, by simp [chainData, composeData], by simp [combineData], by simp [argsTypes]⟩⟩
+  | e :: r, h, hcov => by
+    simp only [argsOKb, Bool.and_eq_true] at h
+    obtain ⟨v, hv, hget, hwf, hh⟩ := evalExpr_wf hn2 hT nk tup e h.1 (by
+      intro j hj; apply hcov; simp [argsAllTypes, inT_append, hj])
+    obtain ⟨vs, hvs, hres⟩ := evalArgs_wf hn2 hT nk tup r h.2 (by
+      intro j hj; apply hcov; simp [argsAllTypes, inT_append, hj])
+    refine ⟨v :: vs, by simp [evalArgs, hv, hvs], ⟨by simp [hres.len], ?_, ?_, ?_, ?_⟩⟩
+    · intro w hw
+      simp only [List.mem_cons] at hw
+      rcases hw with rfl | hw
+      · exact hwf
+      · exact hres.wf w hw
+    · intro x
+      have := hres.data (v.getter x)
+      simp only [chainData, List.foldl_cons, composeData] at this ⊢
+      rw [this, hget]
+    · intro x
+      simp only [List.map_cons, combineData, hget, hres.tuple]
+    · simp only [List.map_cons, List.flatMap_cons, hh, hres.types, argsTypes]
+end
+
+end
+
+section
+variable {names : List String} {D : Type}
+
+theorem NoClash.mono {T T' : List V} {x : Slots} (h : NoClash names T x)
+    (hsub : ∀ j, inT names T' j = true → inT names T j = true) : NoClash names T' x :=
+  fun j hj hs => h j (hsub j hj) hs
+
+/-- **Compose(e₁,…,eₙ) and the Sequence (e₁,…,eₙ) produce the same data and the same context, for expression
+trees of any nesting depth** (`Combine` inside `Compose` inside `Combine` …): if the chain passes the syntactic
+check `chainOKb` (reported by the driver for every generated case), all expressions construct variables `vars`,
+`Compose(*vars)` constructs `c`, applying `c` to the value equals applying the variables in order, and the data
+are the reference semantics `composeData` (getters in application order, tuples for `Combine`) -/
+theorem compose_eq_sequence_expr (nk : Bool) (tup : List D → D) (es : List (Expr D)) (x : Value D)
+    (h : chainOKb names (cvarOf names x) es = true) :
+    ∃ vars c, evalArgs names true nk tup es = .ok (vars.map some) ∧
+      mkCompose names true (vars.map some) (emptyD names.length) = .ok c ∧
+      call names true c x = seqCall names true vars x ∧
+      (∀ d, c.getter d = composeData tup es d) ∧
+      (vars.map Variable.varCtx).flatMap (hist names) = argsTypes names es := by
+  simp only [chainOKb, Bool.and_eq_true, Bool.not_eq_true', List.isEmpty_eq_false_iff] at h
+  obtain ⟨⟨⟨⟨hnames, hne⟩, hargs⟩, htypes⟩, hpre⟩ := h
+  have hn2 := namesOK2b_sound hnames
+  have hT := typesOKb_sound htypes
+  obtain ⟨vs, hev, hres⟩ := evalArgs_wf hn2 hT nk tup es hargs (by
+    intro j hj; simp [inT_append, hj])
+  have hvne : vs ≠ [] := by
+    intro he; rw [he] at hres; have := hres.len; simp at this
+    exact hne (List.length_eq_zero_iff.1 this.symm)
+  -- the types that really occur are among those the check was made with
+  have hsub : ∀ j, inT names (allTypes names (cvarOf names x) (vs.map Variable.varCtx)) j = true →
+      inT names (preHist names (cvarOf names x) ++ argsAllTypes names es) j = true := by
+    intro j hj
+    simp only [allTypes, hres.types, inT_append, Bool.or_eq_true] at hj ⊢
+    rcases hj with hj | hj
+    · exact Or.inl hj
+    · exact Or.inr (argsTypes_sub j es hj)
+  have hchain : ChainWF names (cvarOf names x) (vs.map Variable.varCtx) := by
+    refine ⟨?_, ?_, ?_⟩
+    · intro p hp
+      rw [hp] at hpre
+      simp only [Bool.and_eq_true] at hpre
+      have hw := varWFb_sound hpre.1
+      have hc := noClashB_sound hw.len hpre.2
+      rw [← hp] at hc
+      exact ⟨hw, hc.mono hsub⟩
+    · intro a ha
+      obtain ⟨v, hv, rfl⟩ := List.mem_map.1 ha
+      have hw := hres.wf v hv
+      obtain ⟨s, hs⟩ := hw.name
+      exact ⟨hw.wf, hw.noClash.mono hsub, by simp [hs]⟩
+    · cases hc : inT names (allTypes names (cvarOf names x) (vs.map Variable.varCtx)) (kCompose names)
+      · rfl
+      · have := hsub _ hc
+        rw [hT.compose] at this
+        cases this
+  obtain ⟨c, hc, heq⟩ := compose_eq_sequence hn2.base vs hvne x hchain
+  refine ⟨vs, c, hev, hc, heq, ?_, hres.types⟩
+  intro d
+  have hg := compose_getter hc
+  rw [hg]
+  have : List.filterMap id (List.map some vs) = vs := by simp [List.filterMap_map]
+  rw [this, hres.data]
+
+end
+
+/-! ### a chain of nesting depth 3 that passes `chainOKb` (non-vacuity of `compose_eq_sequence_expr`) -/
+
+def exNames2 : List String :=
+  ["a", "combine", "compose", "dim", "getter", "name", "t0", "ta", "tb", "type", "variable"]
+def exLeaf (name ty : String) (f : Nat → Nat) : Expr Nat := .var (.str name) (.fn f) (.str ty) (emptyD 11)
+/-- `Combine(Compose(v_ta, Combine(v, v_tb)), w)`: a `Combine` inside a `Compose` inside a `Combine` -/
+def exDeep : Expr Nat :=
+  .combine [.compose [exLeaf "p" "ta" (· + 1), .combine [exLeaf "q" "" (2 * ·), exLeaf "r" "tb" (· + 3)] (emptyD 11)]
+              (emptyD 11), exLeaf "w" "" (· + 5)] (emptyD 11)
+def exX2 : Value Nat :=
+  .pair 5 (setSlot (emptyD 11) 10 (some (.dict
+    (setSlot (setSlot (setSlot (emptyD 11) 5 (some (.str "z"))) 9 (some (.str "t0"))) 6
+      (some (.dict (setSlot (emptyD 11) 5 (some (.str "z")))))))))
+
+example : chainOKb exNames2 (cvarOf exNames2 exX2) [exLeaf "u" "tb" (· + 2), exDeep, exLeaf "s" "ta" (3 * ·)] = true := by
+  decide
+
+/-- the data of that chain on `5` with `tup = List.sum`: `((5+2+1)·2 + (5+2+1)+3 + (5+2)+5) · 3` -/
+example : composeData List.sum [exLeaf "u" "tb" (· + 2), exDeep, exLeaf "s" "ta" (3 * ·)] 5 = 117 := by rfl
+
+
+section
+variable {names : List String} {D : Type}
+
+/-- the executable check of `LeavesOK` (reported by the driver for every chain of plain typed variables) is sound -/
+theorem leavesOKb_sound {leaves : List (Leaf D)} (h : leavesOKb names leaves = true) : LeavesOK names leaves := by
+  simp only [leavesOKb, Bool.and_eq_true, List.all_eq_true, decide_eq_true_eq, bne_iff_ne, ne_eq,
+    List.contains_iff_mem, beq_iff_eq, Option.isNone_iff_eq_none] at h
+  obtain ⟨hall, hnd⟩ := h
+  refine ⟨?_, ?_, ?_, ?_, ?_, hnd, ?_⟩
+  · intro l hl; exact (hall l hl).1.1.1.1.1.1.1.1.1
+  · intro l hl; exact (hall l hl).1.1.1.1.1.1.1.1.2
+  · intro l hl
+    have := hall l hl
+    exact ⟨this.1.1.1.1.1.1.1.2, this.1.1.1.1.1.1.2, this.1.1.1.1.1.2⟩
+  · intro l hl; exact (hall l hl).1.1.1.1.2
+  · intro l hl
+    have := hall l hl
+    exact ⟨this.1.1.1.2, this.1.1.2, this.1.2⟩
+  · intro l hl l' hl'
+    exact (hall l hl).2 l' hl'
+
+end
+
 end Lena.C14
